@@ -10,6 +10,7 @@ import JominiModel.Proofs.BinTapeMirror
 import JominiModel.Proofs.BinTapeReuse
 import JominiModel.Proofs.BinTapeDropped
 import JominiModel.Proofs.BinTapeDead
+import JominiModel.Proofs.BinTapeUniform
 /-
 C03 — the binary tape mirrors the token stream; the fast paths are unobservable.
 Only property theorems live here; helper lemmas are in `Proofs/BinTape*.lean`.
@@ -240,6 +241,32 @@ theorem C03_reuse (opt : Bool) (prev : VecS) (hw : prev.Wf) (data : Bytes) :
 
 example : parseInto true ⟨[.token 1, .array 3, .end_ 1, .token 9], 3⟩ [0x82, 0x2d, 1, 0, 0x0c, 0, 5, 0, 0, 0]
     = .ok [.token 0x2d82, .i32 5] := rfl
+
+/-- **The key kind is unobservable** (the dimension the seeded defect C06_r7_2 lived in).  For any two
+well-formed scalar lexemes `k1`, `k2` — of any of the ten kinds: id, quoted, unquoted, i32, u32, i64, u64,
+f32, f64, bool — and EVERY continuation `rest` (in particular `= { …`), the inputs `k1 rest` and `k2 rest`
+are both rejected with the same error, or both accepted with tapes that agree position by position except
+that where the first has `k1`'s token the second has `k2`'s (`RelT`).  So the four key-kind fast paths of
+the optimised parser (token id, quoted, i32, and "none" for the other kinds) are unobservable relative to
+each other, not only relative to the reference; a container is typed and delimited the same way whatever
+the kind of the key in front of it. -/
+theorem C03_key_kinds_uniform (opt : Bool) (k1 k2 : Sc) (h1 : k1.wf = true) (h2 : k2.wf = true) (rest : Bytes) :
+    (∀ e, parse opt (k1.encode ++ rest) = .error e → parse opt (k2.encode ++ rest) = .error e) ∧
+    (∀ T1, parse opt (k1.encode ++ rest) = .ok T1 →
+      ∃ T2, parse opt (k2.encode ++ rest) = .ok T2 ∧ RelT k1.tok k2.tok T1 T2) :=
+  key_kinds_uniform opt k1 k2 h1 h2 rest
+
+/-- the instance in the words of the defect: `"q" = { id id = id }` against `id = { id id = id }` -/
+example :
+    parse true ((Sc.quoted [0x71]).encode ++ [1, 0, 3, 0, 0x82, 0x2d, 0x82, 0x2d, 1, 0, 0x82, 0x2d, 4, 0])
+      = .ok [.quoted [0x71], .array 7, .token 0x2d82, .mixed, .token 0x2d82, .equal, .token 0x2d82, .end_ 1] ∧
+    parse true ((Sc.id 0x3001).encode ++ [1, 0, 3, 0, 0x82, 0x2d, 0x82, 0x2d, 1, 0, 0x82, 0x2d, 4, 0])
+      = .ok [.token 0x3001, .array 7, .token 0x2d82, .mixed, .token 0x2d82, .equal, .token 0x2d82, .end_ 1] := ⟨rfl, rfl⟩
+
+/-- Containers are classified correctly (shared with C06): on every accepted tape an `Object` is a sequence of
+`key value` pairs up to its first `MixedContainer` marker (or its end), every key a plain token (`GSeq`). -/
+theorem C03_object_pairs (opt : Bool) (data : Bytes) (toks : Tape) (h : parse opt data = .ok toks) : GSeq toks :=
+  C06_bin_object_pairs opt data toks h
 
 /-- Payloads (shared with C06): on every accepted tape each key / value token is the decoding of a
 lexeme of the input — strings are slices of the input, numbers its little-endian bytes. -/
